@@ -32,8 +32,9 @@ PROPS = {
                 "error-token message texts are not modelled"]),
  "C15": dict(
    corr=[("bytes-exh-3", "split", 0, 0), ("semis", "split", 5000, 50000), ("bytes-rand", "split", 4000, 40000),
-         ("semis", "scan", 3000, 30000), ("prog", "parse", 2000, 20000)],
-   oracle=[("bytes-exh-3", "oracle-C15", 0, 0), ("semis", "oracle-C15", 5000, 50000),
+         ("semis", "scan", 3000, 30000), ("prog", "parse", 2000, 20000), ("prog-mut", "parse", 2000, 20000), ("semis", "parse", 2000, 20000),
+         ("script", "cli", 500, 5000)],
+   oracle=[("script", "oracle-C16", 500, 5000), ("bytes-exh-3", "oracle-C15", 0, 0), ("semis", "oracle-C15", 5000, 50000),
            ("bytes-rand", "oracle-C15", 4000, 40000), ("prog", "oracle-C15", 2000, 20000), ("prog-mut", "oracle-C15", 2000, 20000)],
    oracle_for_stage=LEX_ORACLE_STAGES,
    corpus=["lex.txt"], tables=["Gen/Tables.v: kind, keywords"]),
@@ -70,9 +71,10 @@ PROPS = {
    oracle_for_stage={"parse": ["oracle-C08", "oracle-C07"]},
    corpus=["parse.txt"], tables=["Gen/Tables.v: op_prec"]),
  "C10": dict(
-   corr=[("prog", "spans", 4000, 40000), ("prog", "parse", 3000, 30000), ("prog-mut", "parse", 3000, 30000), ("prog-hostile", "spans", 1500, 15000), ("joins", "spans", 1000, 10000)],
+   corr=[("prog", "spans", 4000, 40000), ("prog", "parse", 3000, 30000), ("prog-mut", "parse", 3000, 30000), ("prog-hostile", "spans", 1500, 15000), ("joins", "spans", 1000, 10000),
+         ("prog", "compile", 4000, 40000), ("prog-mut", "compile", 2000, 20000)],
    oracle=[("prog", "oracle-C10", 4000, 40000), ("prog-mut", "oracle-C10", 3000, 30000), ("prog-hostile", "oracle-C10", 1500, 15000), ("bytes-rand", "oracle-C10", 1500, 15000)],
-   oracle_for_stage={"parse": ["oracle-C10"], "spans": ["oracle-C10"]},
+   oracle_for_stage={"parse": ["oracle-C10"], "spans": ["oracle-C10"], "compile": ["oracle-C10"]},
    corpus=["parse.txt"], tables=["Gen/AstTables.v: ast_fields, span_parts"],
    assumptions=["spans inside the partial trees returned with a parse error are checked on the implementation only (the model builds no partial trees)"]),
  "C11": dict(
@@ -99,8 +101,8 @@ PROPS = {
    corpus=["compile.txt"], tables=["Gen/Shared.v: package_vars, write_sites"],
    assumptions=["absence of data races under the Go memory model is observed with the race detector (harness built with -race for the C14 oracle), not proved; sync.Once's contract is trusted"]),
  "C16": dict(
-   corr=[("script", "cli", 500, 5000)],
-   oracle=[("script", "oracle-C16", 500, 5000)],
+   corr=[("script", "cli", 2500, 25000)],
+   oracle=[("script", "oracle-C16", 2500, 25000)],
    oracle_for_stage={"cli": ["oracle-C16"]},
    corpus=["cli.txt"], tables=[],
    assumptions=["OS-level I/O (partial writes, signals, terminal detection, file-system errors other than a missing file) is outside the model",
